@@ -94,19 +94,27 @@ func parseDestinationAndHeader(mls *MetaLeaseSet, data []byte) ([]byte, error) {
 	return rem, nil
 }
 
+// metaLeaseSetParseMinSize is the size below which no byte string can be a
+// MetaLeaseSet, whatever its key and signature types: the smallest header (395
+// bytes) + empty options (2) + entry count (1) + one entry (40) + the shortest
+// signature (40 bytes, DSA-SHA1) = 478 bytes. META_LEASESET_MIN_SIZE (505) assumes a
+// 64-byte signature; complete structures signed with a shorter one are below it
+// and must not be refused by the parser.
+const metaLeaseSetParseMinSize = META_LEASESET_HEADER_MIN_SIZE + 2 + 1 + META_LEASESET_ENTRY_MIN_SIZE + 40
+
 // validateMinSize validates that data meets minimum MetaLeaseSet size requirements.
 // Returns error if data is too short to contain a valid MetaLeaseSet.
 func validateMinSize(dataLen int) error {
-	if dataLen < META_LEASESET_MIN_SIZE {
+	if dataLen < metaLeaseSetParseMinSize {
 		err := oops.
 			Code("meta_leaseset_too_short").
 			With("data_length", dataLen).
-			With("minimum_required", META_LEASESET_MIN_SIZE).
-			Errorf("data too short for MetaLeaseSet: got %d bytes, need at least %d", dataLen, META_LEASESET_MIN_SIZE)
+			With("minimum_required", metaLeaseSetParseMinSize).
+			Errorf("data too short for MetaLeaseSet: got %d bytes, need at least %d", dataLen, metaLeaseSetParseMinSize)
 		log.WithFields(logger.Fields{
 			"at":          "validateMinSize",
 			"data_length": dataLen,
-			"min_size":    META_LEASESET_MIN_SIZE,
+			"min_size":    metaLeaseSetParseMinSize,
 		}).Error(err.Error())
 		return err
 	}
